@@ -101,11 +101,11 @@ static Plan gen_fault_enum(const char *prop, uint64_t seed, int repeats) {
     p.extra.set("enumeration_complete", (long)F.size() <= FE_SLOTS - 1);
     if (slot == 0 || F.empty()) { p.extra.set("fault", "none"); }
     else if ((size_t)slot <= F.size()) { e.faults.push_back(F[(size_t)slot - 1]); p.extra.set("fault", "single"); }
-    else {   // sampled pairs
+    else {   // sampled pairs, and single faults that persist (every later call of the kind fails too)
         Rng pr(seed * 7919 + 17);
         Fault a = F[pr.below(F.size())], b = F[pr.below(F.size())];
-        e.faults.push_back(a); if (!(a.kind == b.kind && a.nth == b.nth)) e.faults.push_back(b);
-        p.extra.set("fault", "pair");
+        if (pr.chance(1, 2) && a.err) { a.sticky = true; e.faults.push_back(a); p.extra.set("fault", "persistent"); }
+        else { e.faults.push_back(a); if (!(a.kind == b.kind && a.nth == b.nth)) e.faults.push_back(b); p.extra.set("fault", "pair"); }
     }
     for (int i = 0; i < repeats; i++) p.ops.push_back(op_exec(e));
     return p;
@@ -142,6 +142,7 @@ static void describe_fe(const Plan &p, const RunResult &r, J &line) {
     line.set("sig", sig); line.set("nontrivial", fired || p.extra.gets("fault") == "none");
     if (p.extra.gets("fault") == "none") { line.set("p_census", true); line.set("census_calls", p.extra.geti("census_calls")); line.set("single_faults", p.extra.geti("single_faults")); line.set("enum_complete", p.extra.getb("enumeration_complete")); }
     if (p.extra.gets("fault") == "pair") line.set("p_pair", true);
+    if (p.extra.gets("fault") == "persistent") line.set("p_persistent_fault", true);
     for (auto &kv : r.counters) { if (kv.first == "queue-full") line.set("p_queue_full", true); if (kv.first == "eagain-seen") line.set("p_eagain_seen", true); if (kv.first == "enospc" || kv.first == "enospc-partial") line.set("p_enospc", true); }
 }
 static Reg reg_c03({"C03", gen_c03, oracle_c03, abort_c03, describe_fe});
